@@ -24,7 +24,9 @@ import c07  # noqa: E402
 
 FN = {"c05_next": (r"<impl at varlink/src/lib\.rs[^>]*>::next", r"^_1: &mut MethodCall<"),
       "c05_more": (c07.IMPL + "::more", r"^_1: &mut MethodCall<"),
-      "c05_call": (c07.IMPL + "::call", r"^_1: &mut MethodCall<")}
+      "c05_call": (c07.IMPL + "::call", r"^_1: &mut MethodCall<"),
+      "c07_upgrade": (c07.IMPL + "::upgrade", r"^_1: &mut MethodCall<"),
+      "c04_oneway": (c07.IMPL + "::oneway", r"^_1: &mut MethodCall<")}
 
 
 def models(state):
@@ -144,13 +146,28 @@ def run(name, repo, timeout_s):
             else:
                 seen["err"] = True
                 ask(pc, z3.And(*[d == 0 for d in c07.RESULTS]) if c07.RESULTS else T, "P:c05.more_fails_only_if_the_send_did")
-        else:  # c05_call
+        elif name == "c04_oneway":
+            # the client's oneway call returns after sending and never consumes a reply
+            ask(pc, z3.BoolVal(len(sends) != 1 or tuple(sends[0][1]) != (True, False, False)),
+                "P:c04.client_oneway_sends_one_request_flagged_oneway")
+            ask(pc, z3.BoolVal(bool(recvs)), "P:c04.client_oneway_never_reads_a_reply")
+            if isinstance(ret, ms.Enum) and z3.is_expr(ret.discr):
+                # the send's own result is handed on unchanged (one path for both outcomes)
+                seen["ok"] = seen["err"] = True
+                ask(pc, ret.discr != c07.RESULTS[-1] if c07.RESULTS else T, "P:c04.client_oneway_returns_the_outcome_of_the_send")
+                continue
+            seen["ok" if c07.is_ok(ret) else "err"] = True
+            if c07.is_ok(ret):
+                ask(pc, z3.Or(*[d != 0 for d in c07.RESULTS]) if c07.RESULTS else z3.BoolVal(False),
+                    "P:c04.client_oneway_succeeds_only_if_the_send_did")
+            else:
+                ask(pc, z3.And(*[d == 0 for d in c07.RESULTS]) if c07.RESULTS else T, "P:c04.client_oneway_fails_only_if_the_send_did")
+        else:  # c05_call / c07_upgrade
+            want = (False, False, name == "c07_upgrade")
             if len(sends) != 1:
                 ask(pc, T, "P:c05.call_sends_exactly_one_request")
-            else:
-                for got in sends[0][1]:
-                    if got is not False:
-                        ask(pc, T, "P:c05.call_sends_without_flags")
+            elif tuple(sends[0][1]) != want:
+                ask(pc, T, "P:c05.call_sends_with_the_flags_of_its_mode")
             send_ok = z3.And(*[d == 0 for d in c07.RESULTS]) if c07.RESULTS else T
             if recvs:
                 seen["ok"] = True
@@ -167,7 +184,7 @@ def run(name, repo, timeout_s):
            "covers_unsat": []}
     if failed:
         label, w = failed
-        vals = [{"c05_next": 10, "c05_more": 11, "c05_call": 12}[name], int(w["call_continues"]), int(w["send_ok"])]
+        vals = [{"c05_next": 10, "c05_more": 11, "c05_call": 12, "c07_upgrade": 13, "c04_oneway": 14}[name], int(w["call_continues"]), int(w["send_ok"])]
         res.update(verdict="violation", failed_labels=[label], witness=w, playback=[[vals]])
     else:
         res["oracle_ok"] = ["P:c05.client.%s: all clauses" % name[4:]]
